@@ -328,7 +328,8 @@ impl Action for AbsAction {
     fn execute(&self, arguments: &[Data], _global: &GlobalData) -> Result<Data, String> {
         if arguments.len() == 1 {
             match &arguments[0] {
-                Data::Integer(value) => Ok(Data::Integer(value.abs())),
+                // Saturating like the integer arithmetic: "abs" of i64::MIN would panic.
+                Data::Integer(value) => Ok(Data::Integer(value.saturating_abs())),
                 Data::Double(value) => Ok(Data::Double(value.abs())),
                 _ => Err("Wrong argument type for 'abs'.".to_string()),
             }
